@@ -1,28 +1,30 @@
 """Registry of checks: per property the sub-runs the driver compiles and runs.
+One JSON file per property under checks_d/ (so they can be developed independently).
 
-kind: "ext"    -> package under /verif/harness/ext (public API of /repo via replace)
-      "intree" -> package path under /repo, harness injected with -overlay
+sub-run keys:
+  name      unique within the property
+  kind      "ext"    -> package dir under /verif/harness/ext (public API of /repo via replace)
+            "intree" -> package path under /repo, harness injected with -overlay
+  pkg       package directory (relative to harness/ext or to /repo)
+  test      test function name (TestVerif_...)
+  race/asan build with the race detector / address sanitizer
+  tiers     ["quick","thorough"] subset (default both)
+  env       extra environment for the harness process
+  timeout_s {"quick": s, "thorough": s} watchdog (inconclusive when it fires)
+  race_policy "violation" (default) | "record"
 """
+import glob
+import json
+import os
 
-EXT_ASSUME = [
-    "the Go toolchain, race detector and crypto/ed25519 are correct",
-    "the harness generators reach the behaviours listed under coverage.rule; paths they do not reach are not covered",
-]
+_D = os.path.join(os.path.dirname(os.path.abspath(__file__)), "checks_d")
 
 NOT_BUILT_REASON = "check not built yet in this work-in-progress commit; runtime monitoring applies (see DESIGN.md section 4) and the check will be registered when its harness is silent on the unchanged tree"
 NOT_APPLICABLE = {}
 
-CHECKS = {
-    "C18": {
-        "engine": "E4-property",
-        "technique": "runtime oracle: 128-bit reference arithmetic over exhaustive small range + structured edges + PRNG samples of the real functions",
-        "level_text": "Exhaustive evaluation of the real ByzantineMajority/ByzantineMinority for every n up to 2^22 (quick) / 2^31 (thorough), all n within 1000 of every power of two and of thirds of powers of two up to 2^64-1, the top 2^20 values, and 10^6/10^8 PRNG values, each judged by a 128-bit oracle for minimality, quorum intersection and sub-minority harmlessness. Exhaustive below the bound, sampled above it: not a proof for all n.",
-        "level_note": "Trusts math/bits 128-bit arithmetic and the Go compiler; claims nothing about n not evaluated.",
-        "level": "exploration",
-        "floor": {"quick": 100, "thorough": 100},
-        "assumptions": EXT_ASSUME + ["128-bit reference arithmetic via math/bits"],
-        "subs": [
-            {"name": "main", "kind": "ext", "pkg": "c18", "test": "TestVerif_C18"},
-        ],
-    },
-}
+CHECKS = {}
+for _f in sorted(glob.glob(os.path.join(_D, "C*.json"))):
+    _spec = json.load(open(_f))
+    if _spec.get("disabled"):
+        continue
+    CHECKS[os.path.basename(_f)[:-5]] = _spec
